@@ -122,6 +122,9 @@ add("C07", "formula", "exploration", "runtime monitor: differential comparison o
 add("C10", "formula", "exploration", "runtime monitor: differential comparison of twin models (one kept in English/en, one switching among 5 languages and 6 locales) fed the same abstract edits",
     "After every step the twins must agree on every value, on the R1C1 form of every parsed formula, on every stored formula text and on the defined names; the switching twin also re-enters formulas from their displayed text.",
     "Trusted base: the harness's formula printer FL per language/locale. The generated language has no locale-dependent function, so values must not change at all. Typed boolean constants are entered in English in both twins (re-entering displayed booleans belongs to C18).")
+add("C17", "formula", "exploration", "runtime monitor: before/after relation around one sheet rename, move or duplicate on random three-sheet workbooks (values keyed by permanent sheet id, reference lists, duplicate vs source)",
+    "Values of all cells must be unchanged, the reference list of every formula must be the old one with the renamed sheet under its new name, and a duplicated sheet must show its source's values cell by cell.",
+    "The generated formulas read neither sheet names nor formula text as text. Operator shapes are compared without parentheses (re-printing drops the parentheses of x+(y+z): C09's pinned finding).")
 
 NOT_YET = {}
 
